@@ -30,6 +30,10 @@ pub enum Src {
   Timer(V, u64),
   /// `from_future` over a poll-counting future that is ready at its first poll
   FutureReady(V),
+  /// `from_iter` over a bounded iterator 0..n that counts how many items were pulled
+  CountingIter(usize),
+  /// `from_stream` over a stream of n ready items that counts its polls
+  CountingStream(usize),
 }
 
 #[derive(Clone, Copy, Debug, PartialEq, Eq, Hash)]
@@ -580,4 +584,20 @@ pub enum TSrc {
   FutureResult(usize, Option<u64>, Result<V, E>),
   Stream(Vec<SEv>),
   StreamResult(Vec<SEv>),
+}
+
+// ------------------------------------------------------ composite histories (C17b)
+
+#[derive(Clone, Debug, PartialEq, Eq, Hash)]
+pub enum COp {
+  /// append a fresh probe subscription
+  Append,
+  /// clone handle h
+  CloneHandle(usize),
+  /// unsubscribe through handle h (consumes it)
+  Unsub(usize),
+  IsClosed(usize),
+  /// child c finishes on its own (its is_closed() becomes true)
+  CloseChild(usize),
+  Retain(usize),
 }
